@@ -53,6 +53,7 @@ type stressRun struct {
 	closing int32
 	viols   int32
 	flushes int32
+	dropped int32 // 1 once DropMeasurement of the second measurement was started
 	line    int
 }
 
@@ -149,13 +150,28 @@ func (s *stressRun) reader(id int, seed uint64, stop *int32, wg *sync.WaitGroup,
 			s.viol("panic", "query: "+panicSummary(perr))
 			return
 		}
+		droppedMs := ms == detMsts[1] && atomic.LoadInt32(&s.dropped) != 0
 		if err != nil {
 			if atomic.LoadInt32(&s.closing) != 0 && strings.Contains(err.Error(), "closed") {
 				s.c.Count("stress:read-after-close-began:error")
 				return
 			}
+			if droppedMs {
+				s.c.Count("stress:read-of-measurement-being-dropped:error")
+				continue
+			}
 			s.viol("read_error", fmt.Sprintf("reader %d: %v", id, err))
 			return
+		}
+		if droppedMs {
+			// what a measurement that is being dropped shows is not defined; no crash is all that is asked
+			s.c.Count("stress:read-of-measurement-being-dropped")
+			for k := range lastSeen {
+				if mstOfSeries(k.s) == ms {
+					delete(lastSeen, k)
+				}
+			}
+			continue
 		}
 		atomic.AddInt64(reads, 1)
 		closing := atomic.LoadInt32(&s.closing) != 0
@@ -318,6 +334,28 @@ func runStressRound(c *hx.Ctx, r *hx.Rng, idx int) error {
 		}
 	}
 	closeWithReaders := r.Bool()
+	// in a third of the rounds the second measurement is dropped while everything is running
+	dropDone := make(chan struct{})
+	if r.Chance(33) {
+		wantDropAt := wantFlushes / 2
+		go func() {
+			defer close(dropDone)
+			for atomic.LoadInt32(&s.flushes) < wantDropAt && atomic.LoadInt32(&stopWriters) == 0 {
+				time.Sleep(time.Millisecond)
+			}
+			atomic.StoreInt32(&s.dropped, 1)
+			var err error
+			if perr := safeStack(func() { err = sh.DropMeasurement(detMsts[1]) }); perr != "" {
+				s.viol("panic", "DropMeasurement: "+panicSummary(perr))
+			}
+			if err != nil {
+				s.c.Count("stress:drop-returned-error")
+			}
+			s.c.Count("stress:drop-in-flight")
+		}()
+	} else {
+		close(dropDone)
+	}
 	// the writers go on until the flusher has been through enough flushes
 	for t0 := time.Now(); atomic.LoadInt32(&s.flushes) < wantFlushes && time.Since(t0) < 60*time.Second; {
 		done := make(chan struct{})
@@ -330,6 +368,7 @@ func runStressRound(c *hx.Ctx, r *hx.Rng, idx int) error {
 	}
 	atomic.StoreInt32(&stopWriters, 1)
 	ok := waitOr(&wwg, "the writers")
+	<-dropDone
 	atomic.StoreInt32(&stopBg, 1)
 	ok = ok && waitOr(&bwg, "flusher / compactor / merger")
 	if !closeWithReaders {
@@ -339,6 +378,9 @@ func runStressRound(c *hx.Ctx, r *hx.Rng, idx int) error {
 	if ok {
 		// what the shard holds now, read with nothing else running (unless the readers still are)
 		for _, ms := range detMsts {
+			if ms == detMsts[1] && atomic.LoadInt32(&s.dropped) != 0 {
+				continue
+			}
 			rows, err := sh.Dump(ms, engx.AllFields(), math.MinInt64, math.MaxInt64, true)
 			if err != nil {
 				s.viol("read_error", "final read: "+err.Error())
